@@ -45,6 +45,8 @@ WORDS = [
     "&", "&amp;", "<", ">", "-->", "<!--", "]]>", "<summary>", "\x01", "\x1f", "\x7f", "\x85", "\u2028", "\u2029", "\r", "\r\n",
     "\n", "\n\n", "\x0b", "\x0c", "\x1c", "\t", " ", "  ", "\\ ", "\\\t", "x" * 70, "\U0001F600", "\ufffe", "\uffff", "#", "${x}",
     "{@code x}", "&#47;", "&#92;", "u", "uuuu", "\\uuuu0041", "\xa0", "\u3000", "a", "the", "é",
+    # runs of 3, 4 and 5 backslashes before a `u` (Java decides by the parity of the run whether a unicode escape starts)
+    "\\\\\\u", "\\\\\\users", "x\\\\\\u002a/", "\\\\\\\\u002a/", "\\\\\\\\\\u0041", "\\\\\\\\\\u002a/",
 ]
 
 
